@@ -16,6 +16,11 @@ structure Elem where
 /-- `self._elements[name]`: a later element with the same name replaced the earlier one -/
 def lookup (els : List Elem) (n : String) : Option Elem := els.reverse.find? (·.name == n)
 
+/-- the elements `to_dict` writes: the dictionary in insertion order — one entry per name, in the order
+    the names first appeared, each with the last value read for it -/
+def savedElems (els : List Elem) : List Elem :=
+  (els.map (·.name)).eraseDups.filterMap (lookup els)
+
 inductive Walk where
   | ok | noPath | missingSigner | outOfFuel
   deriving DecidableEq, Repr
